@@ -82,8 +82,15 @@ def check(cx):
         for _, s in core.region_aggregates(fc, range(len(fc.blocks)), WAL):
             rv = s["rv"]
             if "flushed_blocks" in rv["fields"]:
-                k = op_const(rv["o"][rv["fields"].index("flushed_blocks")])
+                o_ = rv["o"][rv["fields"].index("flushed_blocks")]
+                k = op_const(o_)
                 okc = k is not None and k.get("v") == 1
+                if not okc and op_local(o_) is not None:
+                    # a constructor shared with open(): `header.total_blocks.max(1)` of the freshly allocated header
+                    mx = [c for c in fc.calls() if c.dst and c.dst[0] in (fc.provenance_locals(op_local(o_)) | {op_local(o_)})
+                          and c.callee.rsplit("::", 1)[-1] == "max" and any((op_const(a) or {}).get("v") == 1 for a in c.args)]
+                    fresh = any(c.callee.endswith("::alloc") or c.callee.endswith("BlockZero::new") for c in fc.calls())
+                    okc = bool(mx) and fresh
         cx.verdict(okc, r2, "create:starts-at-1", fc.where(), "flushed_blocks = 1", "a fresh log does not start with one block (block zero)")
     ft = cx.guard(r2, "truncate", p.method, WAL, "truncate", "io::disk::FileOperations")
     if ft:
